@@ -48,6 +48,24 @@ Proof.
   unfold enabled in H. destruct (step c s l); [discriminate|reflexivity].
 Qed.
 
+Lemma NoDup_app_single {A} (l : list A) x : NoDup l -> ~ In x l -> NoDup (l ++ [x]).
+Proof.
+  induction l as [|y r IH]; intros Hnd Hni; cbn.
+  - constructor; [intros []|constructor].
+  - inversion Hnd; subst. constructor.
+    + intros Hin. apply in_app_or in Hin. destruct Hin as [Hin|[<-|[]]]; auto. apply Hni. now left.
+    + apply IH; auto. intros Hin. apply Hni. now right.
+Qed.
+
+Lemma NoDup_app_remove_r {A} (l l' : list A) : NoDup (l ++ l') -> NoDup l.
+Proof.
+  induction l as [|y r IH]; intros H; [constructor|]. cbn in H. inversion H; subst. constructor.
+  - intros Hin. apply H2. apply in_or_app. now left.
+  - auto.
+Qed.
+
+Definition msg_idx (m : qmsg) : nat := match m with MAns i _ => i | MExc i => i end.
+
 (* ------------------------------------------------------------------------------------ *)
 (* vocabulary                                                                            *)
 
@@ -65,9 +83,10 @@ Definition agree (c : config) (b : bool) : Prop := forall i b', ans_of c i b' ->
 
 Definition par_ok (c : config) (p : ppc) : Prop :=
   match p with
-  | PWait => True
+  | PWait seen => forall i, In i seen -> raiser c i
+  | PDead => True
   | PTerm w b _ | PIdle w b _ | PAwait w b _ _ | PFinal w b => ans_of c w b
-  | PRaise i _ | PErr i => eoe c = true /\ raiser c i
+  | PRaise i _ | PErr i => raiser c i
   end.
 
 Definition msg_ok (c : config) (m : qmsg) : Prop :=
@@ -87,6 +106,11 @@ Lemma safe_init c : safe c (init c).
 Proof.
   constructor; cbn; try tauto.
   intros i [H|[q H]]; discriminate.
+Qed.
+
+Lemma raiser_not_answerer c i : raiser c i -> answerer c i -> False.
+Proof.
+  intros (bh & Hbh & Hr) [b Hb]. unfold ans_of in Hb. rewrite Hbh in Hb. inversion Hb; subst. discriminate.
 Qed.
 
 Ltac inv_some :=
@@ -115,13 +139,15 @@ Proof.
   intros [Hq Hp Hs Hc Hr] Hstep. destruct l as [|i|i]; cbn in Hstep.
   - (* parent *)
     unfold parent_step in Hstep.
-    destruct (par s) as [|w b todo|e todo|w b rest|w b q rest|e|w b] eqn:Epar.
-    + destruct (queue s) as [|m r] eqn:Eq; [discriminate|].
+    destruct (par s) as [seen|w b todo|e todo|w b rest|w b q rest|e| |w b] eqn:Epar.
+    + destruct (queue s) as [|m r] eqn:Eq.
+      { destruct (forallb _ (all_idx c)); inv_some. constructor; cbn; auto. }
       assert (Hm : msg_ok c m) by (apply Hq; now left).
       assert (Hr' : forall m', In m' r -> msg_ok c m') by (intros m' Hin; apply Hq; now right).
       destruct m as [i b|i].
       * inv_some. constructor; cbn; auto.
-      * destruct (eoe c) eqn:Ee; inv_some; constructor; cbn; auto.
+      * destruct (eoe c || Nat.eqb (S (length seen)) (length (members c))); inv_some; constructor; cbn; auto.
+        cbn in Hp. intros j [<-|Hj]; auto.
     + destruct todo as [|j t]; inv_some; constructor; cbn; auto.
       destruct (Nat.eqb j w); auto. intros i Hi. apply Hs. eapply serving_setpend; eauto.
     + destruct todo as [|j t]; inv_some; constructor; cbn; auto.
@@ -132,6 +158,7 @@ Proof.
       constructor; cbn; auto.
       * intros i0 q0 Hin. apply (Hc i0 q0). now right.
       * intros i0 [<-|Hin]; auto. apply (Hc i q'). now left.
+    + discriminate.
     + discriminate.
     + discriminate.
   - (* child *)
@@ -195,19 +222,141 @@ Proof.
   do 5 (destruct i as [|i]; cbn in H; [congruence|]). destruct i; discriminate.
 Qed.
 
-(* with exit_on_exception off, no failing member ever turns the call into an error ... *)
-Theorem failures_ignored : forall c, eoe c = false ->
-  forall sched i todo, par (run c sched) <> PErr i /\ par (run c sched) <> PRaise i todo.
+(* ------------------------------------------------------------------------------------ *)
+(* the failure counter: `failed == len(processes)` means that EVERY member reported a failure *)
+
+Definition fails_all (c : config) : Prop :=
+  forall i bh, nth_error (members c) i = Some bh -> answers bh = false.
+
+Lemma all_fail_spec c : all_fail c = true <-> fails_all c.
 Proof.
-  intros c He sched i todo. pose proof (s_par _ _ (safe_run c sched)) as Hp.
-  split; intros E; rewrite E in Hp; cbn in Hp; destruct Hp; congruence.
+  unfold all_fail, fails_all. rewrite forallb_forall. split.
+  - intros H i bh Hn. apply nth_error_In in Hn. specialize (H bh Hn). now destruct (answers bh).
+  - intros H bh Hin. apply In_nth_error in Hin. destruct Hin as [i Hi]. now rewrite (H i bh Hi).
 Qed.
 
-(* ... and with it on, an error is the exception of a member that did raise / answer unknown *)
-Theorem error_only_from_failure : forall c sched i,
-  par (run c sched) = PErr i -> eoe c = true /\ raiser c i.
+Definition pending_idx (seen : list nat) (s : state) : list nat := seen ++ map msg_idx (queue s).
+
+Definition counted (c : config) (s : state) : Prop :=
+  match par s with
+  | PWait seen =>
+      NoDup (pending_idx seen s) /\ (forall i, In i (pending_idx seen s) -> pc (kids s i) <> CRun)
+  | PRaise _ _ | PErr _ => eoe c = true \/ fails_all c
+  | _ => True
+  end.
+
+(* a duplicate-free list of members that has as many entries as there are members is all of them *)
+Lemma full_count_all_fail c l :
+  NoDup l -> (forall i, In i l -> raiser c i) -> length l = length (members c) -> fails_all c.
 Proof.
-  intros c sched i E. pose proof (s_par _ _ (safe_run c sched)) as Hp. rewrite E in Hp. exact Hp.
+  intros Hnd Hr Hlen i bh Hbh.
+  assert (Hincl : incl (all_idx c) l).
+  { apply NoDup_length_incl; auto.
+    - unfold all_idx. rewrite seq_length. lia.
+    - intros j Hj. apply in_all_idx. destruct (Hr j Hj) as (bh' & Hb' & _). eapply nth_error_lt; eauto. }
+  assert (Hi : In i l) by (apply Hincl, in_all_idx; eapply nth_error_lt; eauto).
+  destruct (Hr i Hi) as (bh' & Hb' & Hrs). rewrite Hbh in Hb'. inversion Hb'; subst. now destruct bh'.
+Qed.
+
+Lemma counted_init c : counted c (init c).
+Proof. cbn. split; [constructor | intros i []]. Qed.
+
+Lemma pc_upd_not_run s i p j :
+  p <> CRun -> pc (kids s j) <> CRun -> pc (upd i (setpc p) (kids s) j) <> CRun.
+Proof.
+  intros Hp H. destruct (Nat.eq_dec j i) as [->|Hn]; [rewrite upd_same; exact Hp | rewrite upd_other; auto].
+Qed.
+
+Lemma counted_step c s l s' : safe c s -> counted c s -> step c s l = Some s' -> counted c s'.
+Proof.
+  intros Hsafe Hc Hstep. unfold counted in Hc. destruct l as [|i|i]; cbn in Hstep.
+  - unfold parent_step in Hstep.
+    destruct (par s) as [seen|w b todo|e todo|w b rest|w b q rest|e| |w b] eqn:Epar.
+    + destruct Hc as [Hnd Hnr]. unfold pending_idx in *.
+      destruct (queue s) as [|m r] eqn:Eq.
+      { destruct (forallb _ (all_idx c)); inv_some. exact I. }
+      destruct m as [i b|i]; [inv_some; exact I|].
+      cbn [map msg_idx] in Hnd, Hnr.
+      assert (Hnd' : NoDup (i :: seen ++ map msg_idx r)).
+      { constructor; [apply (NoDup_remove_2 _ _ _ Hnd) | apply (NoDup_remove_1 _ _ _ Hnd)]. }
+      assert (Hri : raiser c i) by (apply (s_queue _ _ Hsafe (MExc i)); rewrite Eq; now left).
+      pose proof (s_par _ _ Hsafe) as Hp. rewrite Epar in Hp. cbn in Hp.
+      destruct (eoe c) eqn:Ee; cbn [orb] in Hstep.
+      * inv_some. unfold counted; cbn. now left.
+      * destruct (Nat.eqb_spec (S (length seen)) (length (members c))) as [Hlen|Hlen]; inv_some; unfold counted; cbn.
+        -- right. apply (full_count_all_fail c (i :: seen)); auto.
+           ++ inversion Hnd' as [|? ? Hx Hr]; subst. constructor.
+              ** intros Hin. apply Hx. apply in_or_app. now left.
+              ** eapply NoDup_app_remove_r; eauto.
+           ++ intros j [<-|Hj]; auto.
+        -- unfold pending_idx. cbn [kids queue app]. split; [exact Hnd'|].
+           intros j Hj. apply Hnr. destruct Hj as [<-|Hj]; [apply in_or_app; right; now left|].
+           apply in_app_or in Hj. apply in_or_app. destruct Hj; [left|right; right]; auto.
+    + destruct todo; inv_some; exact I.
+    + destruct todo; inv_some; exact Hc.
+    + destruct rest; inv_some; exact I.
+    + destruct (cr s) as [|[? ?] ?]; inv_some; exact I.
+    + discriminate.
+    + discriminate.
+    + discriminate.
+  - unfold child_step in Hstep.
+    destruct (nth_error (members c) i) as [bh|] eqn:Em; [|discriminate].
+    destruct (pend (kids s i) && negb (latency c)); [discriminate|].
+    destruct (par s) as [seen|w b todo|e todo|w b rest|w b q rest|e| |w b] eqn:Epar;
+      try (destruct (pc (kids s i)); [destruct bh| destruct (cq s) as [|[|] ?] | | |]; try discriminate; inv_some;
+           unfold counted; cbn [par]; exact Hc).
+    destruct Hc as [Hnd Hnr]. unfold pending_idx in *.
+    destruct (pc (kids s i)) as [| |q| |] eqn:Epc.
+    + assert (Hni : ~ In i (seen ++ map msg_idx (queue s))) by (intros Hin; apply (Hnr i Hin); exact Epc).
+      assert (Hnd' : NoDup (seen ++ map msg_idx (queue s) ++ [i])).
+      { rewrite app_assoc. apply NoDup_app_single; auto. }
+      assert (Hput : forall p m, p <> CRun -> msg_idx m = i ->
+                counted c (mkSt (upd i (setpc p) (kids s)) (queue s ++ [m]) (cq s) (cr s) (PWait seen) (resp s))).
+      { intros p m Hp Hm. unfold counted, pending_idx; cbn [par kids queue]. rewrite map_app. cbn [map]. rewrite Hm.
+        split; [exact Hnd'|]. intros j Hj. rewrite app_assoc in Hj. apply in_app_or in Hj.
+        destruct Hj as [Hj|[<-|[]]]; [apply pc_upd_not_run; auto | rewrite upd_same; exact Hp]. }
+      destruct bh as [b| | |]; inv_some; try (apply Hput; [discriminate | reflexivity]).
+      unfold counted, pending_idx; cbn [par kids queue]. split; auto.
+      intros j Hj; apply pc_upd_not_run; [discriminate | auto].
+    + destruct (cq s) as [|[q|] r]; [discriminate| |]; inv_some; unfold counted, pending_idx; cbn [par kids queue];
+        (split; [auto|]); intros j Hj; (apply pc_upd_not_run; [discriminate | auto]).
+    + inv_some. unfold counted, pending_idx; cbn [par kids queue]. split; auto.
+      intros j Hj; apply pc_upd_not_run; [discriminate | auto].
+    + discriminate.
+    + discriminate.
+  - unfold kill_step in Hstep.
+    destruct (nth_error (members c) i) as [bh0|]; [|discriminate].
+    destruct (pend (kids s i) && alive (kids s i)); inv_some.
+    unfold counted; cbn [par].
+    destruct (par s) as [seen|w b todo|e todo|w b rest|w b q rest|e| |w b] eqn:Epar; auto.
+    destruct Hc as [Hnd Hnr]. unfold pending_idx in *. cbn [kids queue]. split; auto.
+    intros j Hj; apply pc_upd_not_run; [discriminate | auto].
+Qed.
+
+Lemma safe_counted_run c sched : safe c (run c sched) /\ counted c (run c sched).
+Proof.
+  unfold run. apply (run_invariant c (fun s => safe c s /\ counted c s)).
+  - intros s l s' [Hs Hc] Hstep. split; [eapply safe_step; eauto | eapply counted_step; eauto].
+  - split; [apply safe_init | apply counted_init].
+Qed.
+
+(* failures_ignored: with exit_on_exception off, the call turns into a member's error only
+   when EVERY member failed - never while another member answers *)
+Theorem failures_ignored : forall c, eoe c = false ->
+  forall sched i, par (run c sched) = PErr i -> all_fail c = true.
+Proof.
+  intros c He sched i E. destruct (safe_counted_run c sched) as [_ Hc].
+  unfold counted in Hc. rewrite E in Hc. apply all_fail_spec. destruct Hc; [congruence|auto].
+Qed.
+
+(* an error is always the exception of a member that did raise / answer unknown, and it is
+   raised either because exit_on_exception asks for it or because nobody is left *)
+Theorem error_only_from_failure : forall c sched i,
+  par (run c sched) = PErr i -> raiser c i /\ (eoe c = true \/ all_fail c = true).
+Proof.
+  intros c sched i E. destruct (safe_counted_run c sched) as [Hs Hc].
+  pose proof (s_par _ _ Hs) as Hp. rewrite E in Hp. split; [exact Hp|].
+  unfold counted in Hc. rewrite E in Hc. destruct Hc; [now left | right; now apply all_fail_spec].
 Qed.
 
 (* every reply the parent consumed for get_model / get_value came from a member that answered;
@@ -238,19 +387,15 @@ Definition winner_ready (s : state) (w : nat) : Prop :=
   pc (kids s w) = CServe /\ pend (kids s w) = false.
 Definition resp_all (s : state) (w : nat) : Prop := forall i, In i (resp s) -> i = w.
 
-(* a member whose message makes the parent leave the queue loop *)
-Definition live_src (c : config) (i : nat) : Prop :=
-  exists bh, nth_error (members c) i = Some bh /\
-             (answers bh = true \/ (eoe c = true /\ raises bh = true)).
-Definition msg_idx (m : qmsg) : nat := match m with MAns i _ => i | MExc i => i end.
-
 Definition good (c : config) (s : state) : Prop :=
   match par s with
-  | PWait =>
+  | PWait _ =>
       nobody_pend s /\ quiet s /\
       (forall i b, In (MAns i b) (queue s) -> pc (kids s i) = CServe) /\
-      (forall i, live_src c i -> pc (kids s i) = CRun \/ exists m, In m (queue s) /\ msg_idx m = i)
+      (forall i, i < length (members c) ->
+         pc (kids s i) = CRun \/ (pc (kids s i) = CDone /\ ~ answerer c i) \/ exists b, In (MAns i b) (queue s))
   | PTerm w b todo => quiet s /\ winner_ready s w /\ losers_pend c s w todo
+  | PDead => fails_all c
   | PRaise _ _ | PErr _ => True
   | PIdle w b rest =>
       cq s = [] /\ cr s = [] /\ winner_ready s w /\ losers_pend c s w [] /\ resp_all s w
@@ -293,26 +438,28 @@ Proof.
   intros Hlat Hsafe Hg Hstep. unfold good in Hg. destruct l as [|i|i]; cbn in Hstep.
   - (* ---------------- parent ---------------- *)
     unfold parent_step in Hstep.
-    destruct (par s) as [|w b todo|e todo|w b rest|w b q rest|e|w b] eqn:Epar.
+    destruct (par s) as [seen|w b todo|e todo|w b rest|w b q rest|e| |w b] eqn:Epar.
     + destruct Hg as (Hnp & Hquiet & Hserve & Hlive).
-      destruct (queue s) as [|m r] eqn:Eq; [discriminate|].
+      destruct (queue s) as [|m r] eqn:Eq.
+      { (* the liveness poll: nobody is alive, nothing is queued: every member failed *)
+        destruct (forallb (fun i => negb (alive (kids s i))) (all_idx c)) eqn:Eall; inv_some.
+        unfold good; proj. intros i bh Hbh.
+        assert (Hi : i < length (members c)) by (eapply nth_error_lt; eauto).
+        rewrite forallb_forall in Eall. specialize (Eall i (proj2 (in_all_idx c i) Hi)).
+        destruct (Hlive i Hi) as [Hrun|[[Hdone Hna]|[b []]]].
+        - unfold alive in Eall. rewrite Hrun in Eall. discriminate.
+        - destruct bh; auto. exfalso. apply Hna. eexists; exact Hbh. }
       destruct m as [i b|i].
       * inv_some. unfold good; proj. split; [|split].
         -- destruct Hquiet as (A & B & C & D). repeat split; auto.
         -- split; [apply (Hserve i b); now left | apply Hnp].
         -- intros j Hj _. left. now apply in_all_idx.
-      * destruct (eoe c) eqn:Ee; inv_some; unfold good; proj; auto.
+      * destruct (eoe c || Nat.eqb (S (length seen)) (length (members c))); inv_some; unfold good; proj; auto.
         split; [exact Hnp|]. split; [destruct Hquiet as (A & B & C & D); repeat split; auto|].
         split.
         -- intros i0 b0 Hin. apply (Hserve i0 b0). now right.
-        -- intros i0 Hl. destruct (Hlive i0 Hl) as [H|[m [[<-|Hin] Hm]]]; auto.
-           ++ (* the popped exception would have to come from a live source: impossible *)
-              cbn in Hm. subst i0. exfalso.
-              assert (Hr : msg_ok c (MExc i)) by (apply (s_queue _ _ Hsafe); rewrite Eq; now left).
-              destruct Hr as (bh & Hbh & Hrs). destruct Hl as (bh' & Hbh' & [Ha|[He _]]).
-              ** rewrite Hbh in Hbh'. inversion Hbh'; subst. destruct bh'; discriminate.
-              ** congruence.
-           ++ right. exists m. auto.
+        -- intros i0 Hi0. destruct (Hlive i0 Hi0) as [H|[H|[b0 [E|Hin]]]]; auto; [discriminate|].
+           right; right. exists b0. exact Hin.
     + destruct Hg as (Hquiet & Hw & Hlos).
       destruct todo as [|j t]; inv_some; unfold good; proj.
       * destruct Hquiet as (A & B & C & D). repeat split; auto; try apply Hw.
@@ -341,13 +488,14 @@ Proof.
       intros i [<-|Hin]; auto.
     + discriminate.
     + discriminate.
+    + discriminate.
   - (* ---------------- child ---------------- *)
     unfold child_step in Hstep.
     destruct (nth_error (members c) i) as [bh|] eqn:Em; [|discriminate].
     assert (Hilt : i < length (members c)) by (eapply nth_error_lt; eauto).
     rewrite Hlat in Hstep. cbn [negb] in Hstep. rewrite andb_true_r in Hstep.
     destruct (pend (kids s i)) eqn:Epend; [discriminate|].
-    destruct (par s) as [|w b todo|e todo|w b rest|w b q rest|e|w b] eqn:Epar.
+    destruct (par s) as [seen|w b todo|e todo|w b rest|w b q rest|e| |w b] eqn:Epar.
     + (* PWait *)
       destruct Hg as (Hnp & Hquiet & Hserve & Hlive).
       destruct (pc (kids s i)) as [| |q| |] eqn:Epc.
@@ -358,46 +506,48 @@ Proof.
         { destruct Hquiet as (_ & _ & _ & D). intros j q0.
           destruct (Nat.eq_dec j i) as [->|Hn]; [rewrite !upd_same; proj; split; discriminate|].
           rewrite !upd_other; auto. }
-        assert (Hnp' : forall p, nobody_pend (mkSt (upd i (setpc p) (kids s)) [] [] [] PWait [])).
+        assert (Hnp' : forall p, nobody_pend (mkSt (upd i (setpc p) (kids s)) [] [] [] (PWait seen) [])).
         { intros p j. proj. destruct (Nat.eq_dec j i) as [->|Hn]; [rewrite upd_same; proj; apply Hnp|].
           rewrite upd_other; auto. }
-        destruct bh as [b| | |]; inv_some; unfold good; proj.
-        -- split; [exact (Hnp' CServe)|]. split; [destruct Hquiet as (A & B & C & D); repeat split; auto; apply Hkeep|].
+        (* the three ways of leaving s.solve() without an answer *)
+        assert (Hfail : forall qx, (forall b0, In (MAns i b0) qx -> In (MAns i b0) (queue s)) ->
+                  (forall j b0, In (MAns j b0) (queue s) -> In (MAns j b0) qx) ->
+                  (forall j b0, In (MAns j b0) qx -> In (MAns j b0) (queue s)) ->
+                  ~ answerer c i ->
+                  good c (mkSt (upd i (setpc CDone) (kids s)) qx (cq s) (cr s) (PWait seen) (resp s))).
+        { intros qx Hsub Hmono Hback Hna. unfold good; proj.
+          split; [exact (Hnp' CDone)|].
+          split; [destruct Hquiet as (A & B & C & D); repeat split; auto; apply Hkeep|].
+          split.
+          - intros i0 b0 Hin. destruct (Nat.eq_dec i0 i) as [->|Hn]; [exfalso; eapply Hnoans; eauto|].
+            rewrite upd_other; eauto.
+          - intros i0 Hi0. destruct (Nat.eq_dec i0 i) as [->|Hn].
+            + right; left. rewrite upd_same. proj. auto.
+            + rewrite upd_other; auto. destruct (Hlive i0 Hi0) as [H|[H|[b0 Hin]]]; auto.
+              right; right. exists b0. auto. }
+        destruct bh as [b| | |]; inv_some.
+        -- unfold good; proj.
+           split; [exact (Hnp' CServe)|]. split; [destruct Hquiet as (A & B & C & D); repeat split; auto; apply Hkeep|].
            split.
            ++ intros i0 b0 Hin. destruct (Nat.eq_dec i0 i) as [->|Hn]; [now rewrite upd_same|].
               rewrite upd_other; auto. apply in_app_or in Hin. destruct Hin as [Hin|[E|[]]]; [eauto|].
               inversion E; congruence.
-           ++ intros i0 Hl. destruct (Nat.eq_dec i0 i) as [->|Hn].
-              ** right. exists (MAns i b). split; [apply in_or_app; right; now left|reflexivity].
-              ** rewrite upd_other; auto. destruct (Hlive i0 Hl) as [H|[m [Hin Hm]]]; auto.
-                 right. exists m. split; auto. apply in_or_app; now left.
-        -- split; [exact (Hnp' CDone)|]. split; [destruct Hquiet as (A & B & C & D); repeat split; auto; apply Hkeep|].
-           split.
-           ++ intros i0 b0 Hin. apply in_app_or in Hin. destruct Hin as [Hin|[E|[]]]; [|discriminate].
-              destruct (Nat.eq_dec i0 i) as [->|Hn]; [exfalso; eapply Hnoans; eauto|].
-              rewrite upd_other; eauto.
-           ++ intros i0 Hl. destruct (Nat.eq_dec i0 i) as [->|Hn].
-              ** right. exists (MExc i). split; [apply in_or_app; right; now left|reflexivity].
-              ** rewrite upd_other; auto. destruct (Hlive i0 Hl) as [H|[m [Hin Hm]]]; auto.
-                 right. exists m. split; auto. apply in_or_app; now left.
-        -- split; [exact (Hnp' CDone)|]. split; [destruct Hquiet as (A & B & C & D); repeat split; auto; apply Hkeep|].
-           split.
-           ++ intros i0 b0 Hin. apply in_app_or in Hin. destruct Hin as [Hin|[E|[]]]; [|discriminate].
-              destruct (Nat.eq_dec i0 i) as [->|Hn]; [exfalso; eapply Hnoans; eauto|].
-              rewrite upd_other; eauto.
-           ++ intros i0 Hl. destruct (Nat.eq_dec i0 i) as [->|Hn].
-              ** right. exists (MExc i). split; [apply in_or_app; right; now left|reflexivity].
-              ** rewrite upd_other; auto. destruct (Hlive i0 Hl) as [H|[m [Hin Hm]]]; auto.
-                 right. exists m. split; auto. apply in_or_app; now left.
-        -- split; [exact (Hnp' CDone)|]. split; [destruct Hquiet as (A & B & C & D); repeat split; auto; apply Hkeep|].
-           split.
-           ++ intros i0 b0 Hin.
-              destruct (Nat.eq_dec i0 i) as [->|Hn]; [exfalso; eapply Hnoans; eauto|].
-              rewrite upd_other; eauto.
-           ++ intros i0 Hl. destruct (Nat.eq_dec i0 i) as [->|Hn].
-              ** exfalso. destruct Hl as (bh & Hbh & Hor). rewrite Em in Hbh. inversion Hbh; subst.
-                 cbn in Hor. destruct Hor as [H|[_ H]]; discriminate.
-              ** rewrite upd_other; auto.
+           ++ intros i0 Hi0. destruct (Nat.eq_dec i0 i) as [->|Hn].
+              ** right; right. exists b. apply in_or_app; right; now left.
+              ** rewrite upd_other; auto. destruct (Hlive i0 Hi0) as [H|[H|[b0 Hin]]]; auto.
+                 right; right. exists b0. apply in_or_app; now left.
+        -- apply Hfail.
+           ++ intros b0 Hin. apply in_app_or in Hin. destruct Hin as [Hin|[E|[]]]; [auto|discriminate].
+           ++ intros j b0 Hin. apply in_or_app; now left.
+           ++ intros j b0 Hin. apply in_app_or in Hin. destruct Hin as [Hin|[E|[]]]; [auto|discriminate].
+           ++ intros [b0 Hb0]. unfold ans_of in Hb0. congruence.
+        -- apply Hfail.
+           ++ intros b0 Hin. apply in_app_or in Hin. destruct Hin as [Hin|[E|[]]]; [auto|discriminate].
+           ++ intros j b0 Hin. apply in_or_app; now left.
+           ++ intros j b0 Hin. apply in_app_or in Hin. destruct Hin as [Hin|[E|[]]]; [auto|discriminate].
+           ++ intros [b0 Hb0]. unfold ans_of in Hb0. congruence.
+        -- apply Hfail; auto.
+           intros [b0 Hb0]. unfold ans_of in Hb0. congruence.
       * destruct Hquiet as (A & _). rewrite A in Hstep. discriminate.
       * destruct Hquiet as (_ & _ & _ & D). exfalso. eapply D; eauto.
       * discriminate.
@@ -442,6 +592,9 @@ Proof.
     + (* PErr *)
       destruct (pc (kids s i)); [destruct bh| destruct (cq s) as [|[|] ?] | | |]; try discriminate; inv_some;
         unfold good; proj; exact I.
+    + (* PDead *)
+      destruct (pc (kids s i)); [destruct bh| destruct (cq s) as [|[|] ?] | | |]; try discriminate; inv_some;
+        unfold good; proj; exact Hg.
     + (* PFinal *)
       destruct (pc (kids s i)); [destruct bh| destruct (cq s) as [|[|] ?] | | |]; try discriminate; inv_some;
         unfold good; proj; exact Hg.
@@ -454,7 +607,7 @@ Proof.
     { intros j q0 H. destruct (Nat.eq_dec j i) as [->|Hn]; [rewrite upd_same; proj; discriminate|].
       rewrite upd_other; auto. }
     unfold good; proj.
-    destruct (par s) as [|w b todo|e todo|w b rest|w b q rest|e|w b] eqn:Epar; auto.
+    destruct (par s) as [seen|w b todo|e todo|w b rest|w b q rest|e| |w b] eqn:Epar; auto.
     + destruct Hg as (Hnp & _). rewrite (Hnp i) in Epend. discriminate.
     + destruct Hg as (Hquiet & Hw & Hlos).
       assert (Hiw : i <> w) by (intros ->; destruct Hw as [_ Hw]; congruence).
@@ -502,25 +655,34 @@ Example model_from_winner_example :
 Proof. repeat split. Qed.
 
 (* ------------------------------------------------------------------------------------ *)
-(* no_stuck_state: absence of reachable deadlock                                         *)
+(* no_stuck_state: absence of reachable deadlock, for EVERY configuration                 *)
 
-Theorem no_stuck_state : forall c, latency c = false -> (exists i, live_src c i) ->
+Theorem no_stuck_state : forall c, latency c = false ->
   forall sched, stuck c (run c sched) = true -> final (run c sched) = true.
 Proof.
-  intros c Hlat [i0 Hlive0] sched Hstuck.
+  intros c Hlat sched Hstuck.
   destruct (safe_good_run c sched Hlat) as [Hsafe Hg].
   set (s := run c sched) in *.
   pose proof (stuck_disabled c s LParent Hstuck (in_labels_parent c)) as Hpar.
   cbn in Hpar. unfold parent_step in Hpar. unfold good in Hg. unfold final.
-  destruct (par s) as [|w b todo|e todo|w b rest|w b q rest|e|w b] eqn:Epar; auto; exfalso.
+  destruct (par s) as [seen|w b todo|e todo|w b rest|w b q rest|e| |w b] eqn:Epar; auto; exfalso.
   - destruct Hg as (Hnp & Hquiet & Hserve & Hlive).
     destruct (queue s) as [|m r] eqn:Eq.
-    + destruct (Hlive i0 Hlive0) as [Hrun|[m [[] _]]].
-      destruct Hlive0 as (bh & Hbh & _).
-      pose proof (stuck_disabled c s (LChild i0) Hstuck (in_labels_child c i0 (nth_error_lt _ _ _ Hbh))) as Hc.
-      cbn in Hc. unfold child_step in Hc. rewrite Hbh, (Hnp i0), Hrun in Hc. cbn in Hc.
-      destruct bh; discriminate.
-    + destruct m; [discriminate|]. destruct (eoe c); discriminate.
+    + (* nothing queued: either a member is still solving (it can move) or the poll fires *)
+      destruct (forallb (fun i => negb (alive (kids s i))) (all_idx c)) eqn:Eall; [discriminate|].
+      assert (Hex : exists i, In i (all_idx c) /\ alive (kids s i) = true).
+      { clear -Eall. induction (all_idx c) as [|x r IH]; cbn in Eall; [discriminate|].
+        destruct (alive (kids s x)) eqn:Ea; cbn in Eall.
+        - exists x. split; [now left|auto].
+        - destruct (IH Eall) as (i & Hi & Hai). exists i. split; [now right|auto]. }
+      destruct Hex as (i & Hi & Hai). apply in_all_idx in Hi.
+      destruct (Hlive i Hi) as [Hrun|[[Hdone _]|[b []]]].
+      * destruct (nth_error (members c) i) as [bh|] eqn:Ebh; [|apply nth_error_None in Ebh; lia].
+        pose proof (stuck_disabled c s (LChild i) Hstuck (in_labels_child c i Hi)) as Hc.
+        cbn in Hc. unfold child_step in Hc. rewrite Ebh, (Hnp i), Hrun in Hc. cbn in Hc.
+        destruct bh; discriminate.
+      * unfold alive in Hai. rewrite Hdone in Hai. discriminate.
+    + destruct m; [discriminate|]. destruct (eoe c || _); discriminate.
   - destruct todo; discriminate.
   - destruct todo; discriminate.
   - destruct rest; discriminate.
@@ -534,21 +696,12 @@ Proof.
     + rewrite B in Hpar. discriminate.
 Qed.
 
-(* instance used by the property text: some member answers *)
-Corollary no_stuck_state_answering : forall c, latency c = false -> (exists i, answerer c i) ->
-  forall sched, stuck c (run c sched) = true -> final (run c sched) = true.
-Proof.
-  intros c Hlat [i [b Hb]]. apply no_stuck_state; auto.
-  exists i, (BAns b). split; auto.
-Qed.
-
 Example no_stuck_state_example :
   let c := mkCfg [BRaise; BAns false; BExit] false false [QValue] in
-  (exists i, answerer c i) /\
   let s := run c [LChild 0; LChild 2; LParent; LChild 1; LParent; LParent; LParent; LParent; LParent;
                   LParent; LChild 1; LChild 1; LParent; LParent; LChild 1; LKill 0; LKill 1; LKill 2] in
   stuck c s = true /\ outcome_of c s = OVerdict false 1 [1].
-Proof. split; [exists 1, false; reflexivity | split; reflexivity]. Qed.
+Proof. split; reflexivity. Qed.
 
 (* with signal latency the single shared control pipe lets a loser take the query and die *)
 Theorem no_stuck_state_latency_refuted :
@@ -573,87 +726,38 @@ Proof.
 Qed.
 
 (* ------------------------------------------------------------------------------------ *)
-(* all_fail_reports: FALSE of the code as it is                                          *)
+(* all_fail_reports: every member fails -> the call reports an error, it does not block    *)
 
-Definition fails_all (c : config) : Prop :=
-  forall i bh, nth_error (members c) i = Some bh -> answers bh = false.
+Definition is_error (s : state) : Prop := (exists i, par s = PErr i) \/ par s = PDead.
 
-Lemma all_fail_spec c : all_fail c = true <-> fails_all c.
+Theorem all_fail_reports : forall c, latency c = false -> all_fail c = true ->
+  forall sched, stuck c (run c sched) = true -> is_error (run c sched).
 Proof.
-  unfold all_fail, fails_all. rewrite forallb_forall. split.
-  - intros H i bh Hn. apply nth_error_In in Hn. specialize (H bh Hn). now destruct (answers bh).
-  - intros H bh Hin. apply In_nth_error in Hin. destruct Hin as [i Hi]. now rewrite (H i bh Hi).
-Qed.
-
-(* the statement the property asks for *)
-Definition all_fail_reports_stmt : Prop :=
-  forall c, all_fail c = true -> forall sched,
-    stuck c (run c sched) = true -> exists i, par (run c sched) = PErr i.
-
-(* every member fails, exit_on_exception is off: the parent NEVER leaves the queue loop,
-   under any schedule *)
-Theorem all_fail_blocks : forall c, eoe c = false -> all_fail c = true ->
-  forall sched, par (run c sched) = PWait.
-Proof.
-  intros c He Hf sched. apply all_fail_spec in Hf.
-  assert (H : par (run c sched) = PWait /\ forall m, In m (queue (run c sched)) -> exists i, m = MExc i);
-    [|exact (proj1 H)].
-  unfold run. apply (run_invariant c (fun s => par s = PWait /\ forall m, In m (queue s) -> exists i, m = MExc i)).
-  - intros s l s' [Hp Hq] Hstep. destruct l as [|i|i]; cbn in Hstep.
-    + unfold parent_step in Hstep. rewrite Hp in Hstep.
-      destruct (queue s) as [|m r] eqn:Eq; [discriminate|].
-      destruct (Hq m (or_introl eq_refl)) as [i ->]. rewrite He in Hstep. inv_some. cbn. split; auto. intros m Hin. apply Hq. now right.
-    + unfold child_step in Hstep. destruct (nth_error (members c) i) as [bh|] eqn:Em; [|discriminate].
-      destruct (pend (kids s i) && negb (latency c)); [discriminate|].
-      pose proof (Hf i bh Em) as Hna.
-      destruct (pc (kids s i)); [destruct bh; try discriminate | destruct (cq s) as [|[|] ?] | | |];
-        try discriminate; inv_some; cbn; split; auto;
-        intros m Hin; apply in_app_or in Hin; destruct Hin as [Hin|[<-|[]]]; eauto.
-    + unfold kill_step in Hstep. destruct (nth_error (members c) i); [|discriminate].
-      destruct (pend (kids s i) && alive (kids s i)); inv_some. cbn. auto.
-  - cbn. split; auto. intros m [].
-Qed.
-
-Theorem all_fail_reports_refuted :
-  exists c sched, all_fail c = true /\ stuck c (run c sched) = true /\
-    par (run c sched) = PWait /\ outcome_of c (run c sched) = OBlockedSolve.
-Proof.
-  exists (mkCfg [BRaise; BUnknown] false false [QModel]).
-  exists [LChild 0; LChild 1; LParent; LParent].
-  repeat split.
-Qed.
-
-Corollary all_fail_reports_false : ~ all_fail_reports_stmt.
-Proof.
-  intros H. destruct all_fail_reports_refuted as (c & sched & Hf & Hs & Hp & _).
-  destruct (H c Hf sched Hs) as [i Hi]. congruence.
-Qed.
-
-(* the part that holds: exit_on_exception on and at least one member reports its failure
-   through the queue (raises / unknown, rather than disappearing) *)
-Theorem all_fail_reports_partial : forall c, latency c = false -> eoe c = true ->
-  all_fail c = true -> (exists i, raiser c i) ->
-  forall sched, stuck c (run c sched) = true -> exists i, par (run c sched) = PErr i.
-Proof.
-  intros c Hlat He Hf [i (bh & Hbh & Hr)] sched Hstuck.
-  assert (Hfin : final (run c sched) = true).
-  { apply no_stuck_state; auto. exists i, bh. split; auto. }
+  intros c Hlat Hf sched Hstuck.
+  pose proof (no_stuck_state c Hlat sched Hstuck) as Hfin.
   pose proof (s_par _ _ (safe_run c sched)) as Hp.
-  unfold final in Hfin. destruct (par (run c sched)) eqn:E; try discriminate; eauto.
+  unfold final in Hfin. unfold is_error.
+  destruct (par (run c sched)) eqn:E; try discriminate; eauto.
   cbn in Hp. apply all_fail_spec in Hf. specialize (Hf _ _ Hp). discriminate.
 Qed.
 
-Example all_fail_reports_partial_example :
-  let c := mkCfg [BExit; BUnknown] true false [] in
-  all_fail c = true /\ outcome_of c (run c [LChild 1; LChild 0; LParent; LParent; LParent; LParent]) = OError 1.
-Proof. split; reflexivity. Qed.
-
-(* silent exits are not covered even with exit_on_exception *)
-Theorem all_exit_blocks_even_with_eoe :
-  exists c sched, eoe c = true /\ all_fail c = true /\ outcome_of c (run c sched) = OBlockedSolve.
+(* and conversely the "nobody is left" error is never raised while some member answers *)
+Theorem no_answer_error_only_if_all_fail : forall c, latency c = false ->
+  forall sched, par (run c sched) = PDead -> all_fail c = true.
 Proof.
-  exists (mkCfg [BExit; BExit] true false []). exists [LChild 0; LChild 1]. repeat split.
+  intros c Hlat sched E. destruct (safe_good_run c sched Hlat) as [_ Hg].
+  unfold good in Hg. rewrite E in Hg. now apply all_fail_spec.
 Qed.
+
+Example all_fail_reports_examples :
+  (let c := mkCfg [BRaise; BUnknown] false false [QModel] in
+   all_fail c = true /\
+   outcome_of c (run c [LChild 0; LChild 1; LParent; LParent; LParent; LParent; LParent]) = OError 1) /\
+  (let c := mkCfg [BExit; BRaise; BExit] false false [] in
+   all_fail c = true /\ outcome_of c (run c [LChild 1; LChild 0; LParent; LChild 2; LParent]) = ONoAnswer) /\
+  (let c := mkCfg [BExit; BExit] true false [] in
+   all_fail c = true /\ outcome_of c (run c [LChild 0; LChild 1; LParent]) = ONoAnswer).
+Proof. repeat split. Qed.
 
 (* ------------------------------------------------------------------------------------ *)
 (* every enabled step decreases a measure: executions are finite, so absence of deadlock  *)
@@ -665,12 +769,12 @@ Fixpoint sumw (k : nat -> child) (l : list nat) : nat :=
   match l with [] => 0 | i :: r => cw (pc (k i)) + sumw k r end.
 Definition pw (c : config) (p : ppc) : nat :=
   match p with
-  | PWait => 6 * length (script c) + length (members c) + 7
+  | PWait _ => 6 * length (script c) + length (members c) + 7
   | PTerm _ _ todo => length todo + 6 * length (script c) + 6
   | PRaise _ todo => length todo + 1
   | PIdle _ _ rest => 6 * length rest + 5
   | PAwait _ _ _ rest => 6 * length rest + 6
-  | PErr _ | PFinal _ _ => 0
+  | PErr _ | PDead | PFinal _ _ => 0
   end.
 Definition measure (c : config) (s : state) : nat :=
   pw c (par s) + sumw (kids s) (all_idx c) + length (queue s) + 3 * length (cq s) + length (cr s).
@@ -706,10 +810,11 @@ Theorem step_decreases : forall c s l s', step c s l = Some s' -> measure c s' <
 Proof.
   intros c s l s' Hstep. destruct l as [|i|i]; cbn in Hstep.
   - unfold parent_step in Hstep. unfold measure.
-    destruct (par s) as [|w b todo|e todo|w b rest|w b q rest|e|w b] eqn:Epar.
-    + destruct (queue s) as [|m r] eqn:Eq; [discriminate|].
-      assert (Hn : length (all_idx c) = length (members c)) by (unfold all_idx; apply seq_length).
-      destruct m as [i b|i]; [|destruct (eoe c)]; inv_some; cbn [kids queue cq cr par resp pw length]; lia.
+    destruct (par s) as [seen|w b todo|e todo|w b rest|w b q rest|e| |w b] eqn:Epar.
+    + assert (Hn : length (all_idx c) = length (members c)) by (unfold all_idx; apply seq_length).
+      destruct (queue s) as [|m r] eqn:Eq.
+      { destruct (forallb _ (all_idx c)); inv_some. cbn [kids queue cq cr par resp pw length]. lia. }
+      destruct m as [i b|i]; [|destruct (eoe c || _)]; inv_some; cbn [kids queue cq cr par resp pw length]; lia.
     + destruct todo as [|j t]; inv_some; cbn [kids queue cq cr par resp pw length]; [lia|].
       destruct (Nat.eqb j w); [lia|].
       rewrite (sumw_upd_samew (all_idx c) j setpend (kids s)) by reflexivity. lia.
@@ -720,6 +825,7 @@ Proof.
       * lia.
     + destruct (cr s) as [|[i q'] r] eqn:Ecr; [discriminate|]. inv_some.
       cbn [kids queue cq cr par resp pw length]. lia.
+    + discriminate.
     + discriminate.
     + discriminate.
   - unfold child_step in Hstep.
